@@ -86,7 +86,12 @@ class CaselessDict(OrderedDict):
         return f'{type(self).__name__}({dict(self)})'
 
     def __eq__(self, other):
-        return self is other or dict(self.items()) == dict(other.items())
+        if self is other:
+            return True
+        if not hasattr(other, 'items'):
+            # not a mapping: None, a list of values, ...
+            return NotImplemented
+        return dict(self.items()) == dict(other.items())
 
     def __ne__(self, other):
         return not self == other
